@@ -314,9 +314,9 @@ func c19States(c *c19Ctx, rng *rand.Rand) []string {
 
 var c19Hosts = []string{"proxy.test", "proxy.test", "proxy.test", "proxy.test:8443", "sub.proxy.test", "[::1]:80", "[::1]", "127.0.0.1:4180", "UPPER.Test", "a..b", "x.test.", strings.Repeat("h", 300) + ".test", "proxy.test:", "-", "_", "xn--caf-dma.test"}
 
-var c19FwdHost = []string{"good.test", "evil.test", "sub.good.test:8443", "", "a:b:c", "[::1", "[::1]:80", "evil.test:99999", "good.test, evil.test", " ", "@", "good.test/x", "é.test", strings.Repeat("a", 5000)}
-var c19FwdProto = []string{"https", "http", "", "javascript", "https, http", "HTTPS", "ws", ":", "h t"}
-var c19FwdURI = []string{"/x", "/public/a", "/oauth2/auth", "", "no-slash", "//evil.test", "/x?%zz", "/x?a=1&b=2", "/\\evil", "?", "#", "/%", "http://evil.test/", strings.Repeat("/a", 4000), "/x y"}
+var c19FwdHost = []string{",", ",,", ", ,", ";", "good.test", "evil.test", "sub.good.test:8443", "", "a:b:c", "[::1", "[::1]:80", "evil.test:99999", "good.test, evil.test", " ", "@", "good.test/x", "é.test", strings.Repeat("a", 5000)}
+var c19FwdProto = []string{",", ",,", " ,", "https", "http", "", "javascript", "https, http", "HTTPS", "ws", ":", "h t"}
+var c19FwdURI = []string{",", "/app/%zz", "app", "/x", "/public/a", "/oauth2/auth", "", "no-slash", "//evil.test", "/x?%zz", "/x?a=1&b=2", "/\\evil", "?", "#", "/%", "http://evil.test/", strings.Repeat("/a", 4000), "/x y"}
 var c19IPs = []string{"10.1.2.3", "203.0.113.5", "", "garbage", "1.2.3.4:99999", "1.2.3.4:80", "[::1]:80", "::1", "[::1]", "fe80::1%eth0", "1.2.3.4, 5.6.7.8", " 10.0.0.1 ", "::ffff:10.1.2.3", ",", ", 10.0.0.1", "999.1.1.1", "10.0.0.1,", "0x0a.1", "2001:db8::1", "[2001:db8::1", "10.0.0.1:", ":80", "unix:@", strings.Repeat("1", 400), "10.0.0.1\t"}
 var c19Accept = []string{"application/json", "text/html", "", "application/json, text/plain", "*/*", ",,,", "application/json;q=0.9", " application/json "}
 var c19RemoteAddrs = []string{"203.0.113.9:54321", "10.0.0.5:1", "[::1]:9", "[2001:db8::5]:9", "@", "", "garbage", "1.2.3.4", "[::1", "10.0.0.5:x", ":"}
